@@ -70,3 +70,63 @@ pub fn case_expr(case: &Value) -> String {
 pub fn case_hol(case: &Value) -> HolSpec {
     HolSpec::parse(case["holidays"].as_str().unwrap_or("none"))
 }
+
+/// Real-world shapes: the 204 lines of the suite's sample file and every string literal of the
+/// repository's test sources that parses. They are only *parsed* by the suite (sample) or
+/// evaluated on one date (tests); here they feed the same oracles as generated expressions.
+pub fn corpus() -> Vec<String> {
+    let root = super::c10::repo_root();
+    let mut out: Vec<String> = Vec::new();
+    if let Ok(t) = std::fs::read_to_string(format!("{root}/opening-hours/src/tests/data/sample.txt")) {
+        out.extend(t.lines().map(|l| l.to_string()));
+    }
+    let mut files: Vec<std::path::PathBuf> = Vec::new();
+    for dir in ["opening-hours/src/tests", "opening-hours-syntax/src/tests", "opening-hours-py/src/tests", "fuzz/src"] {
+        if let Ok(rd) = std::fs::read_dir(format!("{root}/{dir}")) {
+            files.extend(rd.flatten().map(|e| e.path()).filter(|p| p.extension().map(|x| x == "rs").unwrap_or(false)));
+        }
+    }
+    files.push(format!("{root}/README.md").into());
+    files.push(format!("{root}/opening-hours/src/opening_hours.rs").into());
+    files.sort();
+    for f in files {
+        let Ok(text) = std::fs::read_to_string(&f) else { continue };
+        // crude extraction of "..." and r#"..."# literals
+        let bytes: Vec<char> = text.chars().collect();
+        let mut i = 0;
+        while i < bytes.len() {
+            if bytes[i] == '"' {
+                let raw = i >= 2 && bytes[i - 1] == '#' && bytes[i - 2] == 'r';
+                let mut j = i + 1;
+                let mut lit = String::new();
+                while j < bytes.len() {
+                    if raw {
+                        if bytes[j] == '"' && j + 1 < bytes.len() && bytes[j + 1] == '#' {
+                            break;
+                        }
+                    } else if bytes[j] == '\\' && j + 1 < bytes.len() {
+                        if bytes[j + 1] == '"' {
+                            lit.push('"');
+                        }
+                        j += 2;
+                        continue;
+                    } else if bytes[j] == '"' {
+                        break;
+                    }
+                    lit.push(bytes[j]);
+                    j += 1;
+                }
+                if lit.len() >= 2 && lit.len() < 300 && !lit.contains('\n') {
+                    out.push(lit);
+                }
+                i = j + 1;
+            } else {
+                i += 1;
+            }
+        }
+    }
+    out.sort();
+    out.dedup();
+    out.retain(|s| lib_parse(s).is_ok());
+    out
+}
